@@ -12,6 +12,16 @@ import time
 from collections import Counter
 
 
+# Tier of the batch being executed ("quick" | "thorough"); generators may widen
+# their sampling bounds in the thorough tier.  Replay never consults it.
+TIER = "quick"
+
+
+def deep(quick, thorough):
+    """A sampling bound: `quick` in the quick tier, `thorough` in the thorough tier."""
+    return thorough if TIER == "thorough" else quick
+
+
 class Violation(Exception):
     """A property oracle fired.  `case` is the linear, self-contained command list."""
 
@@ -21,6 +31,36 @@ class Violation(Exception):
         self.msg = msg
         self.event = event
         self.case = case
+
+
+class RunTimeout(BaseException):
+    """Raised by the CPU-time watchdog inside a library call that does not return."""
+
+
+class Watchdog:
+    """Per-run watchdog on *CPU* time of this process (ITIMER_VIRTUAL), so that machine
+    load cannot trip it: a run normally needs milliseconds; a library call that loops
+    forever burns CPU and is reported as a violation instead of hanging the batch."""
+
+    def __init__(self, seconds):
+        self.seconds = seconds
+
+    def _fire(self, signum, frame):
+        raise RunTimeout()
+
+    def __enter__(self):
+        import signal
+
+        self._old = signal.signal(signal.SIGVTALRM, self._fire)
+        signal.setitimer(signal.ITIMER_VIRTUAL, self.seconds)
+        return self
+
+    def __exit__(self, *exc):
+        import signal
+
+        signal.setitimer(signal.ITIMER_VIRTUAL, 0)
+        signal.signal(signal.SIGVTALRM, self._old)
+        return False
 
 
 class HarnessError(Exception):
@@ -100,9 +140,12 @@ class Stats:
 
 def _fires(execute, case, oracle):
     try:
-        execute(case, Stats())
+        with Watchdog(20):
+            execute(case, Stats())
     except Violation as v:
         return v.oracle == oracle
+    except RunTimeout:
+        return oracle == "call-did-not-return"
     except HarnessError:
         return False
     return False
